@@ -6,9 +6,12 @@ Driver for C01 / C04 (one negotiation model).  Line (fields after the property i
     run <st0> <ws> <cfg> <script> <picks> <fault>
 
 * `st0`     initial `SessionState`, decimal
-* `ws`      `0`/`1` WebSocket framing (ignored by the model: only the syntax of headers differs)
+* `ws`      flags: `0`/`1` WebSocket framing (ignored by the model: only the syntax of headers
+            differs), `b` a read at the end of the script blocks, `t` the StreamConfig carries
+            TeeIn/TeeOut (the model runs `stepT true`)
 * `cfg`     `;`-joined features `ns.loc:nec:proh:negotiable:listReq:listErr:parseErr:mask:restart:negErr`
-            (the last six fields are the scripted behaviour of the callbacks), `-` = none
+            (the last six fields are the scripted behaviour of the callbacks; an optional eleventh
+            field `layer`: a restarting Negotiate returns a new connection layer), `-` = none
 * `script`  `;`-joined peer items: `H1`/`H0` header good/bad, `A<i,i,…>` features list with
             items `ns.loc.req` or `J` (character data), `Ens.loc.iq.payload` another element,
             `X` stream error, `T` a token that is not a start element; `-` = empty
@@ -34,6 +37,8 @@ structure Beh where
   mask : St
   restart : Bool
   negErr : Bool
+  /-- a restarting `Negotiate` returns a new connection layer, not the session's connection -/
+  layer : Bool := false
 
 def parseName (s : String) : Option FName :=
   match s.splitOn "." with
@@ -51,6 +56,11 @@ def parseBeh (idx : Nat) (s : String) : Option Beh :=
     pure { f := ⟨idx, name, ← parseSt nec, ← parseSt proh, ← parseBool ng⟩, listReq := ← parseBool lr,
            listErr := ← parseBool le, parseErr := ← parseBool pe, mask := ← parseSt m,
            restart := ← parseBool rs, negErr := ← parseBool ne }
+  | [n, nec, proh, ng, lr, le, pe, m, rs, ne, ly] => do
+    let name ← parseName n
+    pure { f := ⟨idx, name, ← parseSt nec, ← parseSt proh, ← parseBool ng⟩, listReq := ← parseBool lr,
+           listErr := ← parseBool le, parseErr := ← parseBool pe, mask := ← parseSt m,
+           restart := ← parseBool rs, negErr := ← parseBool ne, layer := ← parseBool ly }
   | _ => none
 
 def parseAdvItem (s : String) : Option AdvItem :=
@@ -102,7 +112,10 @@ def mkOracle (bs : List Beh) (fs : FaultSpec) : Oracle :=
     block := fs.block
     -- `setDeadline` moves both deadlines (fact `C04_gen_deadline`)
     dlRd := true
-    dlWr := true }
+    dlWr := true
+    layer := fun _ f => match look f with
+      | some b => b.layer
+      | none => false }
 
 def showName (n : FName) : String := s!"{n.ns}.{n.loc}"
 
@@ -165,6 +178,11 @@ def runFast (C : List Feature) (O : Oracle) : Nat → Conf → Conf
   | 0, c => c
   | n + 1, c => if c.pc.final then c else runFast C O n (step C O c)
 
+/-- the same loop for a session configured with a tee (`stepT`) -/
+def runFastT (tee : Bool) (C : List Feature) (O : Oracle) : Nat → TConf → TConf
+  | 0, t => t
+  | n + 1, t => if t.c.pc.final && t.c.pc != .tee then t else runFastT tee C O n (stepT tee C O t)
+
 def advLen : Peer → Nat
   | .adv items => items.length + 1
   | _ => 1
@@ -175,14 +193,16 @@ def fuelFor (C : List Feature) (script : List Peer) (picks : List FName) : Nat :
 
 def handle (args : List String) : Option String :=
   match args with
-  | ["run", st0, _ws, cfg, script, picks, fault] => do
+  | ["run", st0, flags, cfg, script, picks, fault] => do
     let st0 ← parseSt st0
     let bs ← mapM? (fun (p : String × Nat) => parseBeh p.2 p.1) (splitList cfg ';').zipIdx
     let sc ← mapM? parsePeer (splitList script ';')
     let pk ← mapM? parseName (splitList picks ',')
     let fl ← parseFault fault
     let C := bs.map (·.f)
-    let c := runFast C (mkOracle bs fl) (fuelFor C sc pk) (init st0 sc pk)
+    let tee := flags.contains 't'
+    let c := if tee then (runFastT true C (mkOracle bs fl) (fuelFor C sc pk + 4 * (sc.length + 2)) ⟨init st0 sc pk, false⟩).c
+             else runFast C (mkOracle bs fl) (fuelFor C sc pk) (init st0 sc pk)
     let evs := c.tr.reverse.filterMap showEv
     pure s!"{joinList evs} {showOutcome c.pc} {c.st.toNat}"
   | _ => none
